@@ -20,7 +20,7 @@ ASSUMPTIONS = [
     "ATTRIBUTE_UNRECOGNIZED / ATTRIBUTE_EXPECTED_ENUM with the attribute name as first detail",
     "fail-fast: any exception of the MetapypeRuleError family counts as 'raises for the first'",
 ]
-REQUIRED = ["aliasing_probes", "assignments_valid", "assignments_invalid", "introspection_required_checked", "introspection_values_checked",
+REQUIRED = ["validations_on_long_lived_node", "rule_table_unchanged_after_queries", "aliasing_probes", "assignments_valid", "assignments_invalid", "introspection_required_checked", "introspection_values_checked",
             "viol_required", "viol_unrecognized", "viol_enum"]
 EXHAUSTIVE = {"quick": True, "thorough": True}
 
@@ -76,11 +76,26 @@ def expected_violations(table, assignment):
 _EARLIER = (emlkit.ValidationError.UNKNOWN_NODE, "entry left by an earlier validation", emlkit.Node("verifEarlier"))
 
 
-def observe(rule_name, element, kids, assignment):
+_PREVIOUS = {}
+_NONE = object()
+
+
+def observe(rule_name, element, kids, assignment, reuse=False):
     """-> (failfast outcome, collecting outcome)"""
     res = []
     for mode in ("failfast", "collecting"):
-        n = emlkit.make_node(rule_name, element, kids, attributes=dict(assignment))
+        if reuse:
+            # a long-lived node whose attributes are replaced in place (values changed, attributes removed and added)
+            n, _new = emlkit.long_lived_node(rule_name, element, kids)
+            for k in list(n.attributes):
+                if k not in dict(assignment):
+                    n.remove_attribute(k)
+            for k, v in assignment:
+                n.add_attribute(k, v)
+            if list(n.attributes) != [k for k, _ in assignment]:
+                n.attributes = dict(assignment)
+        else:
+            n = emlkit.make_node(rule_name, element, kids, attributes=dict(assignment))
         # insertion order as given
         errs = None if mode == "failfast" else []
         prefilled = mode == "collecting" and len(assignment) % 2 == 1
@@ -111,15 +126,24 @@ def observe(rule_name, element, kids, assignment):
         except Exception as e:
             res.append((f"crash:{type(e).__name__}@{emlkit.raise_site(e)}", None))
         finally:
-            emlkit.discard(n)
+            if not reuse:
+                emlkit.discard(n)
     return res
 
 
 def judge(ctx, rule_name, element, kids, table, assignment):
     exp = expected_violations(table, assignment)
-    (ff, ffd), (co, cod) = observe(rule_name, element, kids, assignment)
+    reuse = (len(assignment) + sum(len(str(v)) for _, v in assignment)) % 3 == 0
+    key = (rule_name, element, tuple(kids))
+    previous = _PREVIOUS.get(key, _NONE) if reuse else _NONE
+    (ff, ffd), (co, cod) = observe(rule_name, element, kids, assignment, reuse)
+    if reuse:
+        _PREVIOUS[key] = [list(x) for x in assignment]
+        ctx.count("validations_on_long_lived_node")
     ctx.evaluated(2)
     wit = {"rule": rule_name, "element": element, "children": kids, "assignment": [list(x) for x in assignment]}
+    if previous is not _NONE:
+        wit["previous_assignment_on_the_same_node"] = previous
     where = f"{rule_name} attributes {assignment}"
     if ff.startswith("crash") or ff == "malformed-errs":
         ctx.violation(f"{ff}|failfast", f"{where}: {ff}", wit)
@@ -308,6 +332,8 @@ def replay(ctx, witness):
         ctx.distinct((r, "replay"))
     else:
         a = [tuple(x) for x in witness["assignment"]]
+        if "previous_assignment_on_the_same_node" in witness:
+            observe(r, witness["element"], witness["children"], [tuple(x) for x in witness["previous_assignment_on_the_same_node"]], reuse=True)
         out = judge(ctx, r, witness["element"], witness["children"], table, a)
         ctx.distinct((r, tuple(a)))
         ctx.sample({"rule": r, "attributes": a, "observed": out})
